@@ -111,7 +111,22 @@ def _unchanged(df, snap):
             and all(len(df._cols[n]) == len(cols[n]) and all(a is b for a, b in zip(df._cols[n], cols[n])) for n in names))
 
 
-def _body_cdist(cls, na, nb, cdr3_len, sym_chain):
+def _scramble(df, restore=None):
+    """edit the caller's table IN PLACE (same object): other V alleles and CDR3s, or back to the given columns"""
+    cols = ("TRAV", "CDR3A", "TRBV", "CDR3B")
+    if restore is not None:
+        for c in cols:
+            df[c] = list(restore[c])
+        return None
+    keep = {c: list(df[c]) for c in cols}
+    for c in cols:
+        vals = list(df[c])
+        df[c] = ([("TRAV1*01" if v == "TRAV0*01" else "TRAV0*01") if c == "TRAV" else ("TRBV1*01" if v == "TRBV0*01" else "TRBV0*01") for v in vals]
+                 if c.startswith("TR") else ["QQ" for _ in vals])
+    return keep
+
+
+def _body_cdist(cls, na, nb, cdr3_len, sym_chain, prior=False):
     def body():
         from pyrepseq.metric import tcr_metric
         from models import misc_model
@@ -125,6 +140,14 @@ def _body_cdist(cls, na, nb, cdr3_len, sym_chain):
         sa, sb = _snapshot(A), _snapshot(B)
         kw = _weights(sym, cls, sym_chain)
         metric = getattr(tcr_metric, cls)(**kw)
+        if prior:
+            # the SAME metric object has seen the SAME table objects before, with other contents (edited in place since): the value depends on
+            # what the rows hold now
+            ka, kb = _scramble(A), _scramble(B)
+            metric.calc_cdist_matrix(A, B)
+            _scramble(A, ka)
+            _scramble(B, kb)
+            sa, sb = _snapshot(A), _snapshot(B)
         got = metric.calc_cdist_matrix(A, B)
         if not isinstance(got, NDArray) or got.shape != (na, nb):
             return False, f"result shape {getattr(got, 'shape', None)}"
@@ -170,7 +193,7 @@ def _patch_tt(inputs, scope_all):
     return table, (lambda: setattr(tl, "tr", old))
 
 
-def _replay_cdist(cls, na, nb, sym_chain):
+def _replay_cdist(cls, na, nb, sym_chain, prior=False):
     def replay(inputs):
         import numpy as np
         from pyrepseq.metric import tcr_metric
@@ -182,7 +205,13 @@ def _replay_cdist(cls, na, nb, sym_chain):
             kw = {w: int(inputs[w]) for w in ("insertion_weight", "deletion_weight", "substitution_weight")}
             for n in names:
                 kw[n] = int(inputs[n]) if sym_chain else PRIMES[n]
-            got = getattr(tcr_metric, cls)(**kw).calc_cdist_matrix(A, B)
+            metric_obj = getattr(tcr_metric, cls)(**kw)
+            if prior:
+                ka, kb = _scramble(A), _scramble(B)
+                metric_obj.calc_cdist_matrix(A, B)
+                _scramble(A, ka)
+                _scramble(B, kb)
+            got = metric_obj.calc_cdist_matrix(A, B)
         finally:
             restore()
         if not (A.equals(A0) and B.equals(B0)):
@@ -312,6 +341,10 @@ def conditions(tier):
                                  budget=900 if not T else 3600, models=M,
                                  bounds=f"{cls}: {na} x {nb} rows, CDR3 length {l3}, symbolic edit weights, prime chain/loop weights, symbolic index labels"))
         if CLASSES[cls][2]:
+            if CLASSES[cls][1] != ("3",):
+                pa = 1 if cls == "CdrLevenshtein" else 2
+                out.append(Condition(f"C09/{cls}/cdist/{pa}x1/same-objects-edited-in-place", _body_cdist(cls, pa, 1, 1, False, True), _replay_cdist(cls, pa, 1, False, True),
+                                     budget=400, models=M, bounds=f"{cls}: {pa} x 1 rows; the same metric object was applied before to the same table objects holding other alleles and CDR3s"))
             out.append(Condition(f"C09/{cls}/cdist/1x1/symbolic-chain-loop-weights", _body_cdist(cls, 1, 1, 1, True), _replay_cdist(cls, 1, 1, True),
                                  budget=900, models=M, bounds=f"{cls}: 1 x 1 rows, all weights symbolic 1..3"))
         out.append(Condition(f"C09/{cls}/pdist/n=2", _body_pdist(cls, 2), _replay_pdist(cls, 2), budget=900, models=M,
